@@ -226,7 +226,7 @@ func (s *StorageSide) Do(c Concrete) Result {
 				opts.Parts = s.manifest(c, uid)
 			}
 		}
-		res, err := s.S.CompleteMultipartUpload(ctx, storage.MustNewBucketName(c.Bucket), storage.MustNewObjectKey(c.Key), uid, nil, opts)
+		res, err := s.S.CompleteMultipartUpload(ctx, storage.MustNewBucketName(c.Bucket), storage.MustNewObjectKey(c.Key), uid, CompleteChecksumInput(c), opts)
 		if err != nil {
 			return fail(err)
 		}
